@@ -212,3 +212,76 @@ func clone(b []byte) []byte {
 	}
 	return append([]byte{}, b...)
 }
+
+// inbuf is an INPUT slice handed to the code under test.  In a good fraction of
+// cases it is a prefix of a larger backing array: the spare capacity behind it
+// holds sentinel bytes which the callee must never touch (an append(input, x)
+// inside the callee would write there), and which the caller is free to
+// overwrite afterwards (scribble simulates the caller appending to its own
+// slice) without affecting anything derived from the input.
+type inbuf struct {
+	s    []byte // the slice passed to the code under test (nil stays nil)
+	orig []byte // contents at creation
+	tail []byte // what the spare capacity must still hold
+}
+
+func newIn(b []byte, extra int) *inbuf {
+	if b == nil {
+		return &inbuf{}
+	}
+	buf := filled(len(b) + extra)
+	copy(buf, b)
+	x := &inbuf{s: buf[:len(b)], orig: append([]byte{}, b...)}
+	x.tail = append([]byte{}, buf[len(b):]...)
+	return x
+}
+
+// drawIn wraps b with a drawn amount of spare capacity (none in about a third
+// of the cases).
+func drawIn(t *rapid.T, label string, b []byte) *inbuf {
+	extra := 0
+	if rapid.IntRange(0, 2).Draw(t, label+".spare") != 2 {
+		extra = rapid.IntRange(1, 24).Draw(t, label+".extra")
+	}
+	return newIn(b, extra)
+}
+
+// intact reports whether neither the contents nor the spare capacity changed.
+func (x *inbuf) intact() bool {
+	if x.s == nil {
+		return true
+	}
+	full := x.s[:cap(x.s)]
+	return string(x.s) == string(x.orig) && string(full[len(x.s):]) == string(x.tail)
+}
+
+// scribble overwrites the spare capacity, as a caller appending to its own
+// slice would.
+func (x *inbuf) scribble(k byte) {
+	if x.s == nil {
+		return
+	}
+	full := x.s[:cap(x.s)]
+	for i := len(x.s); i < len(full); i++ {
+		full[i] = k + byte(i)
+		x.tail[i-len(x.s)] = full[i]
+	}
+}
+
+// clobber overwrites the contents too (only for inputs the API has consumed).
+func (x *inbuf) clobber(k byte) {
+	x.scribble(k)
+	for i := range x.s {
+		x.s[i] ^= k | 1
+	}
+	x.orig = append(x.orig[:0], x.s...)
+}
+
+func allIntact(what string, ins ...*inbuf) error {
+	for i, x := range ins {
+		if !x.intact() {
+			return fmt.Errorf("%s: input slice #%d (len %d, cap %d) was modified, or bytes in its spare capacity were written", what, i, len(x.s), cap(x.s))
+		}
+	}
+	return nil
+}
